@@ -58,7 +58,7 @@ def bfs (g : Graph) (s : Nat) : List (Option Nat) := (bfsRun g s).pred
 
 /-- `while n != 0: path.insert(0, (bfs_tree[n], n)); n = bfs_tree[n]`.
 `none` = the Python code would fail (`bfs_tree[n]` is `None`) or the fuel ran out; neither happens
-on a predecessor table produced by `bfs` (lemma `walkBack_isSome`). -/
+on a predecessor table produced by `bfs` (lemma `walkBack_spec` in `LemmasPath.lean`). -/
 def walkBack (tree : List (Option Nat)) : Nat → Nat → List (Nat × Nat) → Option (List (Nat × Nat))
   | 0, _, _ => none
   | fuel + 1, n, path =>
